@@ -61,9 +61,11 @@ class Prop:
     RUN_TIMEOUT = 10.0
     DIGEST_EVERY = 20
     RULE = ("seeded random histories (5-40 ops) on 2-5 instances of a generated class and its "
-            "subclass with fifteen default kinds (constant, list/dict copy, List/Dict/Set objects, "
+            "subclass with sixteen default kinds (constant, list/dict copy, List/Dict/Set objects, "
             "factory, _name_default method, Tuple and Union with List/Set/Dict members incl. a "
-            "nested Tuple, Instance with args, subclass-overridden defaults): reads, re-reads, in-place mutation of "
+            "nested Tuple, Instance with args, subclass-overridden defaults, and a default method "
+            "on a trait type whose post_setattr hook is a fault point: the first read then fails "
+            "after the default was computed): reads, re-reads, in-place mutation of "
             "default containers (also nested inside the Tuple), valid and invalid assignments, "
             "registering / removing on_trait_change and observe handlers (copy-on-write instance "
             "traits; every handler is tagged with the instance it was registered on), add_trait of "
